@@ -353,14 +353,28 @@ def Disk.latestVersion (d : Disk) : Int := d.latest.getD 0
 
 def Disk.storeDB (d : Disk) (n : Name) : NDB := (aget n d.stores).getD {}
 
+/-- One substore inside `rootmulti.LoadVersion(0)` (since repo commit 2a0e88a): it is loaded with the
+zero `CommitID` (⇒ `iavl LoadVersion(0)`, i.e. the latest version *that substore* has on disk); if it
+comes back with a non-zero version — the debris of a first `Commit` that never completed — it is
+rolled back to nothing (`Rollback(0)` = `LoadVersionForOverwriting(0)`, one atomic batch) and loaded
+again from the now empty substore. -/
+def loadStoreZero (db : NDB) : Option MTree :=
+  match loadStore db 0 with
+  | none => none
+  | some t =>
+    if t.version = 0 then some t
+    else
+      match loadVersionForOverwriting t 0 with
+      | none => none
+      | some (t', _) => loadStore t'.db 0
+
 /-- `rootmulti.Store.LoadVersion(ver)` on a freshly mounted store (`names` = mounted IAVL stores).
-`ver == 0`: every substore is loaded with the zero `CommitID` (⇒ `iavl LoadVersion(0)`, i.e. the
-latest version *that substore* has on disk).  Otherwise the commit info of `ver` gives each
+`ver == 0`: every substore goes through `loadStoreZero`.  Otherwise the commit info of `ver` gives each
 substore's version (a store missing from it gets the zero id; a duplicated name: the last wins, as
 in the Go map `infos`). -/
 def loadMS (H : Bytes → Bytes) (d : Disk) (names : List Name) (ver : Int) : Option MStore :=
   if ver = 0 then
-    match names.mapM (fun n => (loadStore (d.storeDB n) 0).map fun t => (n, t)) with
+    match names.mapM (fun n => (loadStoreZero (d.storeDB n)).map fun t => (n, t)) with
     | none => none
     | some stores => some ⟨{}, stores, d.cinfos, d.latest⟩
   else
